@@ -475,26 +475,45 @@ def deltas_recomputed(out):
     return got == want and len(got) == len(out["ok"]["deltas"])
 
 
+META_KINDS = [("report", {"op": "balance", "prices": False}), ("equity", {"op": "balance", "prices": False, "kind": "equity"}),
+              ("register", {"op": "register"})]
+
+
+def meta_request(c, toml):
+    """one session of the metamorphic stream: unselected outputs, every single pattern, every list and its permutation"""
+    kinds = META_KINDS
+    c["singles"] = sorted(set(p for S, _ in c["lists"] for p in S))
+    ops = [{"op": "balance", "prices": False, "ras": []}, {"op": "register", "ras": []}]
+    for p in c["singles"]:
+        ops += [dict(o, ras=[p]) for _, o in kinds]
+    for S, P in c["lists"]:
+        ops += [dict(o, ras=S) for _, o in kinds] + [dict(o, ras=P) for _, o in kinds]
+    return {"conf": {"toml": toml}, "inputs": [{"text": c["text"]}], "ops": ops}
+
+
+def new_meta_stats(n):
+    return {"sessions": n, "lists": 0, "lists_checked": 0, "lists_skipped_single_rejected": 0, "list_rejected_but_singles_accepted": 0,
+            "singles": 0, "singles_rejected": 0, "comparisons": 0, "lists_with_unscoped_inline_flag": 0,
+            "lists_where_a_leaked_(?i)_would_add_a_name (python re as bystander)": 0, "lists_listing_a_proper_subset": 0}
+
+
 def metamorphic(run, toml):
     r = run.rng
     n = 14 if run.tier == "quick" else 300
     sessions = [gen_meta_session(r) for _ in range(n)]
-    kinds = [("report", {"op": "balance", "prices": False}), ("equity", {"op": "balance", "prices": False, "kind": "equity"}),
-             ("register", {"op": "register"})]
     reqs = []
     for c in sessions:
         c["text"] = build_journal(r, c["accounts"], c["zero_accounts"])
-        c["singles"] = sorted(set(p for S, _ in c["lists"] for p in S))
-        ops = [{"op": "balance", "prices": False, "ras": []}, {"op": "register", "ras": []}]
-        for p in c["singles"]:
-            ops += [dict(o, ras=[p]) for _, o in kinds]
-        for S, P in c["lists"]:
-            ops += [dict(o, ras=S) for _, o in kinds] + [dict(o, ras=P) for _, o in kinds]
-        reqs.append({"conf": {"toml": toml}, "inputs": [{"text": c["text"]}], "ops": ops})
+        reqs.append(meta_request(c, toml))
     res = harness_run(reqs)
-    st = {"sessions": n, "lists": 0, "lists_checked": 0, "lists_skipped_single_rejected": 0, "list_rejected_but_singles_accepted": 0,
-          "singles": 0, "singles_rejected": 0, "comparisons": 0, "lists_with_unscoped_inline_flag": 0,
-          "lists_where_a_leaked_(?i)_would_add_a_name (python re as bystander)": 0, "lists_listing_a_proper_subset": 0}
+    st = new_meta_stats(n)
+    judge_meta(run, sessions, res, st)
+    run.cov["evaluations"] += st["comparisons"]
+    run.notes["metamorphic"] = st
+
+
+def judge_meta(run, sessions, res, st):
+    kinds = META_KINDS
     for c, rr in zip(sessions, res):
         if not rr or rr.get("stage") != "done":
             raise Infra("metamorphic session not loaded: %s" % ((rr or {}).get("err", "") or rr)[:300])
@@ -568,21 +587,26 @@ def metamorphic(run, toml):
                                    "selected_output": outs[kn], "selected_output_permuted": outp[kn],
                                    "unselected_output": unf_b if kn != "register" else unf_r,
                                    "replay_hint": "tackler --config <base.toml> --input.file <journal> --reports %s --accounts <selectors>; "
-                                                  "compare with one run per selector" % ("register" if kn == "register" else "balance")})
-    run.cov["evaluations"] += st["comparisons"]
-    run.notes["metamorphic"] = st
+                                                  "compare with one run per selector" % ("register" if kn == "register" else "balance"),
+                                   "case": {"stream": "metamorphic", "text": c["text"], "accounts": c["accounts"], "lists": [[S, P]], "kind": kn}})
 
 
-def main(run):
-    info = proof_stage(run, "C11", extra_targets=["corr/C11_corr.vo"])
-    harness_build()
+def main(run, only=None):
+    """only: the cases of a replay of the AST stream, each with its journal text (no generation, no proof stage, no probe,
+    no metamorphic stream, no verdict)"""
     r = run.rng
-    n = 36 if run.tier == "quick" else 1200
-    cases = load_corpus() + [gen_case(r, big=(i % 6 == 0)) for i in range(n)]
+    if only is None:
+        info = proof_stage(run, "C11", extra_targets=["corr/C11_corr.vo"])
+        harness_build()
+        n = 36 if run.tier == "quick" else 1200
+        cases = load_corpus() + [gen_case(r, big=(i % 6 == 0)) for i in range(n)]
+    else:
+        cases = only
     toml = J.make_toml()
     reqs = []
     for c in cases:
-        c["text"] = build_journal(r, c["accounts"], c["zero_accounts"])
+        if only is None:
+            c["text"] = build_journal(r, c["accounts"], c["zero_accounts"])
         c["texts"] = [[pp(p) for p in s] for s in c["selectors"]]
         ops = [{"op": "txns"}, {"op": "balance", "prices": False, "ras": []}, {"op": "register", "ras": []}]
         for t in c["texts"]:
@@ -592,11 +616,12 @@ def main(run):
     # F15 probe: a pattern that is not a regular expression on its own must be rejected (fixed: f40ad68);
     # '(?x) a # comment' is valid on its own but breaks inside the one-line wrapper (second half of F15)
     probe_txt = "2024-01-01\n a  1\n a:b  2\n ab  3\n zzz  4\n e  -10\n"
-    reqs.append({"conf": {"toml": toml}, "inputs": [{"text": probe_txt}],
-                 "ops": [{"op": "balance", "prices": False, "ras": ["a)|(?:zzz"]},
-                         {"op": "balance", "prices": False, "ras": ["(?x) a # comment"]}]})
+    if only is None:
+        reqs.append({"conf": {"toml": toml}, "inputs": [{"text": probe_txt}],
+                     "ops": [{"op": "balance", "prices": False, "ras": ["a)|(?:zzz"]},
+                             {"op": "balance", "prices": False, "ras": ["(?x) a # comment"]}]})
     res = harness_run(reqs)
-    probe = res[-1]
+    probe = res[-1] if only is None else None
     try:
         p0, p1 = probe["results"]
         run.notes["F15_probe"] = {
@@ -669,6 +694,7 @@ def main(run):
         n_dom += 1
         rep = {"journal": c["text"], "selectors": texts, "selector_asts": [list(map(str, c["selectors"][k]))],
                "operation": kind, "unselected_output": unf, "selected_output": out, "source": c["src"],
+               "case": {"stream": "ast", "text": c["text"], "accounts": c["accounts"], "selectors": [c["selectors"][k]], "kind": kind},
                "replay_hint": "tackler --config <base.toml> --input.file <journal> --reports %s --accounts <selectors>" %
                               ("register" if kind == "register" else "balance")}
         if "ok" in out and "ok" in unf and not (bits & 2):
@@ -679,6 +705,8 @@ def main(run):
             rep["correspondence"] = "C11_corr.c11_%s_case" % ("reg" if kind == "register" else "bal")
             run.violation("correspondence broken: model Select.selected_%s differs from implementation (spec oracle clean or selector rejected)"
                           % ("register" if kind == "register" else "balance"), rep, found_input=False)
+    if only is not None:
+        return None
     metamorphic(run, toml)
     run.cov["distinct_nontrivial"] = len(distinct)
     run.cov["rule"] = ("sessions = journal posting every generated account name + 2-6 selector lists (1-3 patterns each) evaluated by "
@@ -696,6 +724,32 @@ def main(run):
 
 
 def replay(run, path):
-    j = json.load(open(path))
-    print(json.dumps(j, indent=1, ensure_ascii=False)[:8000])
-    return 0
+    """AST stream: the stored journal + one selector list (ASTs) through balance / equity selection / register + c11_*_case;
+    metamorphic stream: the stored journal + list + permutation + every single pattern through judge_meta.
+    Only the operation of the stored violation counts."""
+    j, rp, rc = replay_begin(run, path)
+    if rc is not None:
+        return rc
+    cs = rp.get("case")
+    if not (isinstance(cs, dict) and cs.get("stream") in ("ast", "metamorphic") and isinstance(cs.get("text"), str)):
+        return replay_print(j)
+    print(j.get("what"))
+    print("journal:\n%s" % cs["text"])
+    kind = cs.get("kind")
+    harness_build()
+    if cs["stream"] == "ast":
+        c = {"text": cs["text"], "accounts": list(cs.get("accounts") or []), "zero_accounts": [],
+             "selectors": [[to_tuple(p) for p in sl] for sl in cs["selectors"]], "src": "replay"}
+        print("selectors: %s (operation %s)" % ([[pp(p) for p in sl] for sl in c["selectors"]], kind))
+        corr_build("C11")
+        main(run, only=[c])
+    else:
+        c = {"text": cs["text"], "accounts": list(cs.get("accounts") or []), "zero_accounts": [],
+             "lists": [(list(S), list(P)) for S, P in cs["lists"]]}
+        print("selector lists: %s (operation %s)" % (c["lists"], kind))
+        st = new_meta_stats(1)
+        judge_meta(run, [c], harness_run([meta_request(c, J.make_toml())]), st)
+        print(json.dumps(st))
+    return replay_verdict(run, path, j, "account selection (%s) on the stored journal and selector list is as specified%s"
+                          % (kind, " and the model agrees" if cs["stream"] == "ast" else " (metamorphic relations hold)"),
+                          only=lambda v: kind is None or v[1].get("operation") == kind)
